@@ -80,6 +80,8 @@ EXH_THOROUGH = EXH_QUICK + [
     ("2u1a-max4,5-purge60", dict(purge=60, mu=4, ma=5, users=U2, addrs=A2[:1])),
     ("3u1a-max1,2-purge4", dict(purge=4, mu=1, ma=2, users=("alice", "bob", "dis"), addrs=A2[:1],
                                 disabled=("dis",))),
+    # real thresholds, 2 users x 2 addresses (6.6 M states); given up, not failed, on time-out
+    ("optional:2u2a-max4,5-purge2", dict(purge=2, mu=4, ma=5, users=U2, addrs=A2)),
 ]
 WITNESS_CFG = dict(purge=3, mu=4, ma=5, users=U2, addrs=A2[:1])
 WITNESSES = ["W_NoUserLock", "W_NoAddrLock", "W_NoOpenInstant", "W_NoRelease"]
@@ -181,14 +183,16 @@ def fn(ck, args):
                      f" MaxAddr = {MAXA}\n Full = {'TRUE' if thorough else 'FALSE'}\nCHECK_DEADLOCK FALSE\n")
         simpre = os.path.join(tmp, "sim")
         nsim, simdepth = (1500, 80) if thorough else (150, 60)
-        runs = [("exhaustive:" + n, "Throttle", model_cfg(**kw), dict(workers=4)) for n, kw in exh]
+        runs = [("exhaustive:" + n, "Throttle", model_cfg(**kw),
+                 dict(workers=8, timeout=1000) if n.startswith("optional:") else dict(workers=4))
+                for n, kw in exh]
         runs += [("witness:" + w, "Throttle", model_cfg(witness=w, **WITNESS_CFG), dict(workers=1))
                  for w in WITNESSES]
         runs += [("static:cases+inductive", "ThrottleCases", cases_cfg, dict(workers=1))]
         runs += [("simulate", "Throttle", model_cfg(**SIM_CFG),
                   dict(workers=1, simulate=f"file={simpre},num={nsim}", depth=simdepth, seed=ck.seed + 1))]
         with ThreadPoolExecutor(8) as ex:
-            futs = [(n, ex.submit(tlc.run, mod, cfg, timeout=1500 if thorough else 300, **kw))
+            futs = [(n, ex.submit(tlc.run, mod, cfg, **{"timeout": 1500 if thorough else 300, **kw}))
                     for n, mod, cfg, kw in runs]
             results = {n: f.result() for n, f in futs}
         for n, r in results.items():
@@ -198,6 +202,9 @@ def fn(ck, args):
                     raise RuntimeError(f"non-vacuity witness {n} was not reached: {r.error or r.out[-400:]}")
                 continue
             ck.add_tlc(n, r, exhaustive=None if n.startswith("exhaustive:") else False)
+            if "optional:" in n and r.error == "timeout":
+                ck.cov.setdefault("given_up", []).append(n)
+                continue
             if r.violated:
                 ck.violation("C18.ModelViolatesPropertyLayer", act="model", where=n,
                              detail=f"TLC: {r.violated} violated by the protocol model",
